@@ -140,6 +140,34 @@ def check_pu_capt(project: Project, oa, rep, rule="PU-CAPT"):
     return n_flag
 
 
+_MEMO: dict = {}
+
+
+def _memo_verdict(project: Project, rep, dotted: str):
+    """classify the module-level name once per run; report under PU-CACHE; None when it is not a memo pattern"""
+    key = (id(project), id(rep), dotted)
+    if key in _MEMO:
+        return _MEMO[key]
+    modname, _, gname = dotted.rpartition(".")
+    from . import memo_rule
+    try:
+        r = memo_rule.classify(project, modname, gname)
+    except Exception as ex:   # a shape of cache this reader does not know: not a memo as far as it can tell
+        r = None
+    if r is None:
+        _MEMO[key] = None
+        return None
+    if r["verdict"] == "ok":
+        rep.discharged("PU-CACHE", r["fi"], r["node"], r["why"])
+    elif r["verdict"] == "refuted":
+        rep.refuted("PU-CACHE", r["fi"], r["node"], r["why"] + " — results depend on the calls made before",
+                    construct=f"{r['fi'].qualname}: cache {gname}")
+    else:
+        rep.unmodelled("PU-CACHE", r["fi"], r["node"], f"module-level cache `{gname}`: {r['why']}")
+    _MEMO[key] = r["verdict"]
+    return r["verdict"]
+
+
 def check_pu_state(project: Project, oa, rep, rule="PU-STATE"):
     n_flag = 0
     mutable_objects = set()
@@ -159,6 +187,13 @@ def check_pu_state(project: Project, oa, rep, rule="PU-STATE"):
         for ev in s.events:
             if ev.func != q:
                 continue  # reported where the construct is
+            root = getattr(ev.origin, "root", str(ev.origin))
+            if ev.kind in ("globalstore", "write") and str(root).startswith("global:"):
+                # a cache that is rebuilt whenever it does not fit the arguments is decided by what it is keyed on (PU-CACHE)
+                verdict = _memo_verdict(project, rep, str(root)[len("global:"):].split(".<")[0])
+                if verdict is not None:
+                    n_flag += verdict == "refuted"
+                    continue
             if ev.kind == "globalstore":
                 rep.refuted(rule, fi, ev.node, f"{ev.how}: hidden state shared between calls ({ev.origin})")
                 n_flag += 1
@@ -374,6 +409,12 @@ def _positive_examples(rep):
         if got[r] < n:
             raise AnalysisError(f"positive example: rule {r} flagged {got[r]} constructs, expected >= {n} "
                                 f"(the rule is not working)")
+    caches = [x for x in scratch.refutations if x["rule"] == "PU-CACHE"]
+    if not any("_WS_TOTAL" in x["construct"] for x in caches):
+        raise AnalysisError("positive example: the cache keyed by too little (_WS_TOTAL) was not flagged by PU-CACHE")
+    if any("_WS_SPLIT" in x["construct"] for x in scratch.refutations):
+        raise AnalysisError("positive example: the completely keyed cache (_WS_SPLIT) was flagged")
+    got["PU-CACHE"] = len(caches)
     # and the clean twin must stay silent
     clean = [x for x in scratch.refutations if "fresh_copy_is_fine" in x["function"] or "fresh_copy_is_fine" in x["construct"]]
     if clean:
@@ -408,6 +449,19 @@ def run(project: Project, rep, tier: str):
     check_pu_plt(project, oa, rep)
     _, dsites = check_pu_dtype(project, rep)
     rep.floor("PU-DTYPE", 3)
+    # PU-NONE: a value taken from a call that returns nothing on some path (the first call on a lazily computed object fails,
+    # a repeated one succeeds: the result depends on the object's history)
+    from . import retval_rule
+    fns = [fi_ for q_, fi_ in sorted(project.functions.items()) if isinstance(fi_.node, (ast.FunctionDef, ast.AsyncFunctionDef))]
+    hits = retval_rule.analyse(project, fns)
+    for h in hits:
+        rep.refuted("PU-NONE", h["fi"], h["node"], h["why"] + "; the call fails there and succeeds when repeated after the object "
+                    "has been computed", construct=f"{h['fi'].qualname}: {ast.unparse(h['node'])[:60]}")
+    mixed = sum(1 for fi_ in fns if retval_rule.mixed_returns(project, fi_))
+    if not hits:
+        rep.discharged("PU-NONE", None, None, f"{len(fns)} functions: {mixed} return a value on some paths only; none of their call "
+                                              f"sites uses the value", nontrivial=False)
+    rep.extra["functions_with_a_valueless_exit"] = mixed
     if oa.unresolved_calls:
         for t, f, ln in oa.unresolved_calls:
             rep.unmodelled("PU-ARGS", f, None, f"call to {t} (line {ln}) does not resolve into the repo or a tabled "
